@@ -717,7 +717,7 @@ def cases_of(rng, tree, rich):
 def generate(ctx):
     rng = ctx.rng
     cases, seen = [], set()
-    for _ in range(ctx.n(34, 400)):
+    for _ in range(ctx.n(80, 600)):
         tree = gen_tree(rng)
         for c in cases_of(rng, tree, not ctx.quick):
             k = json.dumps(c, sort_keys=True)
